@@ -104,6 +104,26 @@ class Program(object):
             else:
                 self.symbol_table[label] = AddressValue(index)
 
+    def resolve_symbol_definition(self, statement):
+        """
+        A symbol may be defined as another symbol (FOO EQU BAR). Gives it the value, or
+        the statement index, that the other symbol has. Will raise a TranslationError if
+        the other symbol does not exist, or if the definitions lead back to the symbol.
+
+        :param statement: the statement that defines the symbol
+        """
+        value = self.symbol_table[statement.label]
+        seen = [statement.label]
+        while value.is_symbol():
+            name = value.ascii()
+            if name not in self.symbol_table:
+                raise TranslationError("[{}] not in symbol table".format(name), statement)
+            if name in seen:
+                raise TranslationError("[{}] is defined in terms of itself".format(name), statement)
+            seen.append(name)
+            value = self.symbol_table[name]
+        self.symbol_table[statement.label] = value
+
     def translate_statements(self):
         """
         Translates all the parsed statements into their respective
@@ -112,6 +132,10 @@ class Program(object):
         self.statements = self.process_mnemonics(self.statements)
         for index, statement in enumerate(self.statements):
             self.save_symbol(index, statement)
+
+        for statement in self.statements:
+            if statement.label and statement.instruction.is_pseudo_define:
+                self.resolve_symbol_definition(statement)
 
         for index, statement in enumerate(self.statements):
             statement.resolve_symbols(self.symbol_table)
